@@ -163,7 +163,8 @@ def solve(P):
         return solvers.cpl(gc.cvx_dense(P.c), P.callback(), G, h, P.dims, A, b, kktsolver=case["kkt"], options=opts)
     if P.entry == "cp":
         return solvers.cp(P.callback(), G, h, P.dims, A, b, kktsolver=case["kkt"], options=opts)
-    return solvers.gp(P.K, gc.cvx_dense(P.gpF), gc.cvx_dense(P.gpg), G, h, A if case["p"] else None,
+    # "F is a dense or sparse real matrix": the flag that selects sparse Df for cp/cpl selects a sparse F here
+    return solvers.gp(P.K, gc.cvx(P.gpF, case["spDf"]), gc.cvx_dense(P.gpg), G, h, A if case["p"] else None,
                       b if case["p"] else None, kktsolver=case["kkt"], options=opts)
 
 
